@@ -403,6 +403,32 @@ func (run *checkRun) solveAll(dump string) []*ObResult {
 		}(i)
 	}
 	wg.Wait()
+	// second chance: an `unknown` is most often a wall-clock limit hit while 8 queries (x3 solvers) compete for the
+	// cores. Retry those few alone, two at a time, with a six-fold limit before they count as undecided.
+	var again []int
+	for i, r := range results {
+		if r.res.Status == "unknown" && !r.ob.Cover && r.q != "" {
+			again = append(again, i)
+		}
+	}
+	if len(again) > 0 && len(again) <= 32 {
+		sem2 := make(chan struct{}, 2)
+		var wg2 sync.WaitGroup
+		for _, i := range again {
+			wg2.Add(1)
+			go func(i int) {
+				defer wg2.Done()
+				sem2 <- struct{}{}
+				defer func() { <-sem2 }()
+				r2 := solveOpt(results[i].q, run.timeout*6, false)
+				if r2.Status == "sat" || r2.Status == "unsat" {
+					r2.Solver += " (second pass)"
+					results[i].res = r2
+				}
+			}(i)
+		}
+		wg2.Wait()
+	}
 	// group by name
 	byName := map[string]*ObResult{}
 	var order []string
